@@ -80,6 +80,8 @@ class SObj(object):
         self.cls = cls
         self.attrs = attrs if attrs is not None else {}
         self.lazy = lazy       # optional callable(name) -> value for attributes created on first read
+        self.on_set = None     # optional callable(name, value): observes every attribute write (frame / lock discipline)
+        self.on_get = None     # optional callable(name, value) -> value: observes/replaces attribute reads
 
     def __repr__(self):
         return '<SObj %s %s>' % (self.cls.__name__, sorted(self.attrs))
@@ -427,6 +429,8 @@ def get_attr(ctx, obj, name):
     from . import libmodels
     if isinstance(obj, SObj):
         if name in obj.attrs:
+            if obj.on_get is not None:
+                return obj.on_get(name, obj.attrs[name])
             return obj.attrs[name]
         if name == '__class__':
             return obj.cls
@@ -515,6 +519,8 @@ def set_attr(ctx, obj, name, value):
         if sa is not None and is_repo_function(sa[0]):
             call_value(ctx, BoundMethod(sa[0], obj, sa[1]), [name, value], {})
             return
+        if obj.on_set is not None:
+            obj.on_set(name, value)
         obj.attrs[name] = value
         return
     if isinstance(obj, (Sym, InterpFunction)):
@@ -554,9 +560,13 @@ def call_value(ctx, fn, args, kwargs):
         f = fn.__func__
         if isinstance(f, types.FunctionType) and is_repo_function(f):
             return call_function(ctx, f, [fn.__self__] + list(args), kwargs, defcls=_defcls_of(fn))
+        if isinstance(f, types.FunctionType) and _is_verif_function(f):
+            return fn(*args, **kwargs)
     model = libmodels.lookup_model(fn)
     if model is not None:
         return model(ctx, *args, **kwargs)
+    if isinstance(fn, (types.WrapperDescriptorType, types.MethodDescriptorType)) and args and isinstance(args[0], SObj):
+        return libmodels.builtin_method_on_sobj(args[0], fn.__name__, fn)(*args[1:], **kwargs)
     if isinstance(fn, types.FunctionType):
         if is_repo_function(fn):
             return call_function(ctx, fn, args, kwargs)
